@@ -334,6 +334,9 @@ def run(ctx):
             add_jobs(cs, (dname, ()), cx.chain_errors(fam, sz, t, turns), 'mwpm/chains-%s' % ('any-shape' if turns > 2 else 'straight+L'),
                      graph_every=3 if n <= 85 else 7)
             add_jobs(cs, (dname, ()), cx.multi_chain_errors(rng, fam, sz, t, ctx.pick(120, 600)), 'mwpm/multi-chain', graph_every=2)
+            sp = cx.spread_errors(rng, fam, sz, t, ctx.pick(150, 800))
+            if sp:
+                add_jobs(cs, (dname, ()), sp, 'mwpm/spread-boundary-interior', graph_every=4)
     # ---- 2. naive decoder, n <= 10 ----
     naive_codes = [('five', ()), ('steane', ()), ('planar', (2, 2)), ('planar', (2, 3)), ('toric', (2, 2)),
                    ('rotatedplanar', (3, 3)), ('color666', (3,)), ('rotatedtoric', (2, 2)), ('rotatedtoric', (2, 4))]
